@@ -195,7 +195,7 @@ pub fn gen_asm(w: &mut impl Write, thorough: bool, seed: u64) {
         }
     }
     // wrong shapes / unknown mnemonics
-    for (name, _) in &ms { for ops in ["", "r1", "r1, r2", "r1, 5", "5", "[r1+2]", "[r1+2], r3", "r1, [r2+3]", "r1, r2, 3", "r1, 2, 3", "r1, r2, r3", "1, 2", "r1, r2, 3, 4", "[r1+2], 5", "r1,", ", r1", "[r1 +2]", "[ r1+2]", "[r1+2 ]", "r 1"] {
+    for (name, _) in &ms { for ops in ["", "r1", "r1, r2", "r1, 5", "5", "[r1+2]", "[r1+2], r3", "r1, [r2+3]", "r1, r2, 3", "r1, 2, 3", "r1, r2, r3", "1, 2", "r1, r2, 3, 4", "r1, 2, 3, 4, 5", "r1, r2, 3, 4, 5, 6", "[r1+2], 5", "r1,", ", r1", "[r1 +2]", "[ r1+2]", "[r1+2 ]", "r 1"] {
         emit(w, &format!("{name} {ops}")); } }
     for bad in ["nop", "addx r1, r2", "ADD r1, r2", "add64x r1, 1", "ldxq r1, [r2]", "jmp +1", "tail_call", "stxxaddw [r1+2], r3", "le r1", "be8 r1", "le128 r1", "é r1", "add r1, r2 ; comment", "add r1 r2", "exit exit", "exit\nexit", "ja+1", "ja -1", "call -1", "lddw r1 , 5", "mov r1, 5exit"] { emit(w, bad); }
 }
@@ -219,6 +219,13 @@ pub fn gen_asmfuzz(w: &mut impl Write, thorough: bool, seed: u64) {
     }
     for reg in ["r", "r-1", "r+1", "r0x10", "r00000000000000000000000000000000000000001", "r99999999999999999999999999", "r9223372036854775807", "r9223372036854775808", "R1", "r１"] {
         for t in ["mov {}, 1", "mov r1, {}", "ldxw r1, [{}+4]", "stxw [{}], r1", "jeq {}, 1, +1", "neg {}", "{}", "exit\n{}"] { emit(w, &t.replace("{}", reg)); } }
+    // operand counts beyond any valid shape (0..=12 operands of every kind, after every mnemonic): surplus operands are an error
+    for (name, _) in &mnemonics() { for n in 0..=12usize { for kind in 0..4usize {
+        if !thorough && n > 6 && n % 3 != 0 && kind != 0 { continue; }
+        let ops: Vec<String> = (0..n).map(|k| match (kind, k % 3) { (0, _) => format!("{}", k + 1), (1, _) => format!("r{}", k % 10), (2, _) => format!("[r{}+{}]", k % 10, k),
+            (_, 0) => format!("r{}", k % 10), (_, 1) => format!("{}", k), _ => format!("[r1+{}]", k) }).collect();
+        emit(w, &format!("{} {}", name, ops.join(", ")));
+    } } }
     for tr in ["mov", "mov ", "mov r1", "mov r1,", "mov r1, ", "ldxw r1, [", "ldxw r1, [r2", "ldxw r1, [r2+", "ldxw r1, [r2+4", "stw [r1+2],", "jeq r1, 2,", "jeq r1,", ",", ",,", "[", "]", "[]", "[r1]", "exit,", "exit ,", "exit r1", "exit 1"] { emit(w, tr); }
     // long identifiers (unknown mnemonics, register-like names) with a multi-byte alphanumeric character at every byte position up to 72:
     // error paths that slice or measure the name in bytes must not split a character
